@@ -65,7 +65,16 @@ type zzvHost struct {
 	connected      bool
 	notifees       []network.Notifiee
 	dials          int
+	dialsDone      int
 	dialsCancelled int
+
+	// pacing of consecutive failed dials (see Connect)
+	ph          *peerHandler
+	epoch       int // bumped by every connectivity change
+	lastFailEnd time.Time
+	lastFailEp  int
+	haveFail    bool
+	earlyRedial bool
 }
 
 // zzvMu is a real mutex natively; under the engine harness code between two synchronisation points of the
@@ -94,6 +103,11 @@ func (h *zzvHost) Network() network.Network         { return h.net }
 func (h *zzvHost) ConnManager() connmgr.ConnManager { return connmgr.NullConnMgr{} }
 
 func (h *zzvHost) Connect(ctx context.Context, pi peer.AddrInfo) error {
+	defer func() {
+		h.mu.Lock()
+		h.dialsDone++
+		h.mu.Unlock()
+	}()
 	h.mu.Lock()
 	h.dials++
 	if ctx.Err() != nil {
@@ -101,8 +115,30 @@ func (h *zzvHost) Connect(ctx context.Context, pi peer.AddrInfo) error {
 		h.mu.Unlock()
 		return ctx.Err()
 	}
+	// Pacing: a dial that directly follows a failed dial (no connectivity change in between) must not start
+	// before the back-off the handler drew for that failure has elapsed (timers never fire early; 10% slack).
+	if h.haveFail && h.lastFailEp == h.epoch && h.ph != nil {
+		h.ph.mu.Lock()
+		want := h.ph.nextDelay
+		h.ph.mu.Unlock()
+		if time.Since(h.lastFailEnd) < want-want/10 {
+			h.earlyRedial = true
+		}
+	}
+	h.haveFail = false
 	h.mu.Unlock()
+	// a dial may take a while to fail (timeouts on black-holed addresses)
+	if verifrt.NondetBool("dialSlow") {
+		if verifrt.Symbolic() {
+			time.Sleep(30 * time.Second)
+		} else {
+			time.Sleep(1500 * time.Millisecond)
+		}
+	}
 	if !verifrt.NondetBool("dialOk") {
+		h.mu.Lock()
+		h.haveFail, h.lastFailEnd, h.lastFailEp = true, time.Now(), h.epoch
+		h.mu.Unlock()
 		return errors.New("dial failed")
 	}
 	h.setConnected(true)
@@ -114,6 +150,7 @@ func (h *zzvHost) Connect(ctx context.Context, pi peer.AddrInfo) error {
 func (h *zzvHost) setConnected(c bool) {
 	h.mu.Lock()
 	h.connected = c
+	h.epoch++
 	ns := append([]network.Notifiee(nil), h.notifees...)
 	h.mu.Unlock()
 	conn := &zzvConn{p: h.pid}
@@ -130,6 +167,18 @@ func (h *zzvHost) dialCount() int {
 	h.mu.Lock()
 	defer h.mu.Unlock()
 	return h.dials
+}
+
+func (h *zzvHost) doneCount() int {
+	h.mu.Lock()
+	defer h.mu.Unlock()
+	return h.dialsDone
+}
+
+func (h *zzvHost) redialTooEarly() bool {
+	h.mu.Lock()
+	defer h.mu.Unlock()
+	return h.earlyRedial
 }
 
 func (h *zzvHost) isConnected() bool {
@@ -169,19 +218,25 @@ func zzvDrain() {
 	}
 }
 
-// zzvAwaitDial waits until the next dial attempt (at most one maximal back-off period).
-func zzvAwaitDial(h *zzvHost, before int) bool {
+// zzvAwaitDial waits until the next dial attempt has started (done=false) or finished (done=true): at most
+// one maximal back-off period plus the duration of a slow dial.
+func zzvAwaitDial(h *zzvHost, done bool) bool {
+	count := h.dialCount
+	if done {
+		count = h.doneCount
+	}
+	before := count()
 	if verifrt.Symbolic() {
-		for i := 0; i < 11 && h.dialCount() == before; i++ {
+		for i := 0; i < 12 && count() == before; i++ {
 			time.Sleep(time.Minute)
 		}
 	} else {
-		for i := 0; i < 15000 && h.dialCount() == before; i++ {
+		for i := 0; i < 15000 && count() == before; i++ {
 			time.Sleep(time.Millisecond)
 		}
 	}
 	zzvDrain()
-	return h.dialCount() > before
+	return count() > before
 }
 
 // zzvQuietPeriod lets two and a half maximal back-off periods pass.
@@ -233,6 +288,7 @@ func zzvTimerArmed(ph *peerHandler) (armed bool, delay time.Duration) {
 // zzvCheckRunning: at a quiescent point while the service runs and the peer is registered, a disconnected
 // peer has a reconnect scheduled.
 func zzvCheckRunning(h *zzvHost, ph *peerHandler) {
+	verifrt.Assert("C46.redial-not-before-backoff-elapsed", !h.redialTooEarly())
 	if h.isConnected() {
 		return
 	}
@@ -267,10 +323,13 @@ func zzvLifecycle(explicitDrains bool) {
 	}
 	ph := zzvHandler(ps, pid)
 	verifrt.Assert("C46.handler-registered", ph != nil)
+	h.mu.Lock()
+	h.ph = ph
+	h.mu.Unlock()
 
 	ne := verifrt.NondetRange("events", 0, E)
 	for i := 0; i < ne; i++ {
-		switch verifrt.NondetRange("ev", 0, 3) {
+		switch verifrt.NondetRange("ev", 0, 3+verifrt.Param("INFLIGHT", 0)) {
 		case 0: // the connection drops; the notification goroutine stays in flight
 			h.setConnected(false)
 		case 1: // inbound connection
@@ -280,10 +339,15 @@ func zzvLifecycle(explicitDrains bool) {
 			zzvScale(ph)
 			zzvCheckRunning(h, ph)
 			if !h.isConnected() {
-				before := h.dialCount()
-				verifrt.Assert("C46.scheduled-reconnect-fires-within-10min", zzvAwaitDial(h, before))
+				verifrt.Assert("C46.scheduled-reconnect-fires-within-10min", zzvAwaitDial(h, true))
 				zzvScale(ph)
 				zzvCheckRunning(h, ph)
+			}
+		case 4: // wait until a dial has started: with a slow dial the following events race with it
+			zzvDrain()
+			zzvScale(ph)
+			if !h.isConnected() && h.dialCount() == h.doneCount() { // no dial in flight already
+				verifrt.Assert("C46.scheduled-reconnect-starts-within-10min", zzvAwaitDial(h, false))
 			}
 		case 3: // quiescence only
 			if explicitDrains {
@@ -314,6 +378,7 @@ func zzvLifecycle(explicitDrains bool) {
 	zzvQuietPeriod()
 	// the property's observable first: no dial attempt after stop/remove returned and in-flight work drained
 	verifrt.Assert("C46.no-dial-after-stop-or-remove", h.dialCount() == d0)
+	verifrt.Assert("C46.redial-not-before-backoff-elapsed", !h.redialTooEarly())
 	armed, _ := zzvTimerArmed(ph)
 	verifrt.Assert("C46.no-reconnect-timer-after-stop-or-remove", !armed)
 	verifrt.Reach("end")
